@@ -39,6 +39,7 @@ type Res struct {
 	Model map[string]interface{} `json:"model,omitempty"`
 	Coll  []interface{}          `json:"collection,omitempty"`
 	IsC   bool                   `json:"is_collection,omitempty"`
+	Null  bool                   `json:"is_null,omitempty"` // the JSON value null (Go nil)
 }
 
 type Ev struct {
@@ -62,6 +63,9 @@ type Desc struct {
 	Init   *Res `json:"init,omitempty"`
 	Events []Ev `json:"events"`
 	Len    int  `json:"gen_len,omitempty"` // generator: number of events to draw when Events is empty
+	// concurrent section: the other resources of the same database / service whose event
+	// sequences ran at the same time on other goroutines (replay runs the whole group again)
+	Group []Desc `json:"concurrent_with,omitempty"`
 }
 
 // ---------- recording connection ----------
@@ -74,7 +78,7 @@ type pubRec struct {
 type recConn struct {
 	mu      sync.Mutex
 	subs    map[string]chan *nats.Msg
-	events  []pubRec
+	events  map[string][]pubRec // by resource name ("" = not an event subject)
 	replies map[string]chan []byte
 	ready   chan struct{}
 	once    sync.Once
@@ -82,7 +86,7 @@ type recConn struct {
 }
 
 func newConn() *recConn {
-	return &recConn{subs: map[string]chan *nats.Msg{}, replies: map[string]chan []byte{}, ready: make(chan struct{})}
+	return &recConn{subs: map[string]chan *nats.Msg{}, events: map[string][]pubRec{}, replies: map[string]chan []byte{}, ready: make(chan struct{})}
 }
 func (c *recConn) Publish(subj string, data []byte) error {
 	c.mu.Lock()
@@ -90,14 +94,18 @@ func (c *recConn) Publish(subj string, data []byte) error {
 	d := append([]byte(nil), data...)
 	switch {
 	case strings.HasPrefix(subj, "event."):
-		c.events = append(c.events, pubRec{subj, d})
+		rn := ""
+		if i := strings.LastIndexByte(subj, '.'); i > 6 {
+			rn = subj[6:i]
+		}
+		c.events[rn] = append(c.events[rn], pubRec{subj, d})
 	case subj == "system.reset":
 		c.once.Do(func() { close(c.ready) })
 	default:
 		if ch, ok := c.replies[subj]; ok {
 			ch <- d
 		} else {
-			c.events = append(c.events, pubRec{subj, d})
+			c.events[""] = append(c.events[""], pubRec{subj, d})
 		}
 	}
 	return nil
@@ -113,11 +121,14 @@ func (c *recConn) ChanQueueSubscribe(subj, q string, ch chan *nats.Msg) (*nats.S
 	return c.ChanSubscribe(subj, ch)
 }
 func (c *recConn) Close() {}
-func (c *recConn) takeEvents() []pubRec {
+
+// takeEvents returns and forgets what was published on event.<rname>.* (and on unknown subjects)
+func (c *recConn) takeEvents(rname string) []pubRec {
 	c.mu.Lock()
 	defer c.mu.Unlock()
-	e := c.events
-	c.events = nil
+	e := append(c.events[rname], c.events[""]...)
+	delete(c.events, rname)
+	delete(c.events, "")
 	return e
 }
 
@@ -249,6 +260,8 @@ func actOf(x interface{}) (string, bool) {
 // resOf renders decoded JSON (object or array of scalars) as a Coq res
 func resOf(x interface{}) (string, bool) {
 	switch v := x.(type) {
+	case nil:
+		return "RNull", true
 	case map[string]interface{}:
 		keys := make([]string, 0, len(v))
 		for k := range v {
@@ -278,6 +291,9 @@ func resOf(x interface{}) (string, bool) {
 	return "", false
 }
 func (r *Res) generic() interface{} {
+	if r.Null {
+		return nil
+	}
 	if r.IsC || (r.Model == nil && r.Coll != nil) {
 		c := make([]interface{}, len(r.Coll))
 		copy(c, r.Coll)
@@ -320,7 +336,7 @@ func (r *Res) allNum() bool {
 // typed converts r to the handler's Go type when it fits, else to the generic value
 func (r *Res) typed(c CfgD) interface{} {
 	g := r.generic()
-	if c.Ty != "num" || !r.allNum() || r.isColl() != (c.Type == "collection") {
+	if r.Null || c.Ty != "num" || !r.allNum() || r.isColl() != (c.Type == "collection") {
 		return g
 	}
 	if r.isColl() {
@@ -337,7 +353,7 @@ func (r *Res) typed(c CfgD) interface{} {
 	return o
 }
 func (r *Res) fits(c CfgD) bool {
-	return r.isColl() == (c.Type == "collection") && (c.Ty != "num" || r.allNum())
+	return !r.Null && r.isColl() == (c.Type == "collection") && (c.Ty != "num" || r.allNum())
 }
 
 // parse decodes JSON bytes into generic values with float64 numbers
@@ -392,16 +408,18 @@ type caseRun struct {
 	kinds       map[string]int
 	broken      string // harness-level problem
 	sawEmptyKey bool
+	fold        cview  // the view a client folds from the first get and this resource's published events
+	diverged    string // first step at which the fold differs from get (concurrent section: runtime violation)
 }
 
 type batch struct {
-	dir   string
-	db    *badger.DB
-	svc   *res.Service
-	conn  *recConn
-	done  chan struct{}
-	cases []*caseRun
-	cur   *caseRun
+	dir     string
+	db      *badger.DB
+	svc     *res.Service
+	conn    *recConn
+	done    chan struct{}
+	cases   []*caseRun
+	workers int
 }
 
 func openDB(dir string) *badger.DB {
@@ -553,13 +571,15 @@ func (b *batch) onEvent(cr *caseRun, ev *res.Event) {
 		}
 		cr.calls = append(cr.calls, "LCreate "+s)
 	case "delete":
+		// no data: a nil interface, or the json.RawMessage(nil) of middleware/badgerdb.go for a missing
+		// resource; a typed nil map / slice (a stored `null`) is data and marshals to null
+		if rm, isRaw := ev.Data.(json.RawMessage); ev.Data == nil || (isRaw && len(rm) == 0) {
+			cr.calls = append(cr.calls, "LDelete None")
+			return
+		}
 		x, ok := marshalParse(ev.Data)
 		if !ok {
 			bad()
-			return
-		}
-		if x == nil {
-			cr.calls = append(cr.calls, "LDelete None")
 			return
 		}
 		s, ok2 := resOf(x)
@@ -577,6 +597,9 @@ func (b *batch) start(listen bool) {
 	b.conn = newConn()
 	b.svc = res.NewService("test")
 	b.svc.SetLogger(nil)
+	if b.workers > 0 {
+		b.svc.SetWorkerCount(b.workers)
+	}
 	for _, cr := range b.cases {
 		b.register(cr, listen)
 	}
@@ -932,6 +955,119 @@ func viewOf(g string, raw []byte) viewInfo {
 	return vi
 }
 
+// ---------- client-side fold (Go side, for the runtime diagnosis of the concurrent section) ----------
+
+// cview is what a client holds: ok=false once the fold cannot be continued
+type cview struct {
+	ok     bool
+	exists bool
+	v      interface{} // map[string]interface{} | []interface{} | nil (null)
+}
+
+func viewFromGet(raw []byte) cview {
+	var r struct {
+		Result map[string]json.RawMessage `json:"result"`
+		Error  *struct {
+			Code string `json:"code"`
+		} `json:"error"`
+	}
+	if json.Unmarshal(raw, &r) != nil {
+		return cview{}
+	}
+	if r.Error != nil {
+		return cview{ok: r.Error.Code == res.CodeNotFound}
+	}
+	for _, k := range []string{"model", "collection"} {
+		if m, ok := r.Result[k]; ok {
+			x, ok := parse(m)
+			return cview{ok: ok, exists: true, v: x}
+		}
+	}
+	return cview{}
+}
+func (cv cview) String() string {
+	if !cv.ok {
+		return "<unknown>"
+	}
+	if !cv.exists {
+		return "<not found>"
+	}
+	b, _ := json.Marshal(cv.v)
+	return string(b)
+}
+
+// apply folds one published event (its payload; for create the data given to CreateEvent)
+func (cv cview) apply(e Ev, p pubRec, def *Res) cview {
+	if !cv.ok {
+		return cv
+	}
+	bad := cview{}
+	name := p.subj[strings.LastIndexByte(p.subj, '.')+1:]
+	list := func() ([]interface{}, bool) {
+		if !cv.exists || cv.v == nil {
+			return []interface{}{}, true
+		}
+		l, ok := cv.v.([]interface{})
+		return l, ok
+	}
+	switch name {
+	case "change":
+		m, ok := cv.v.(map[string]interface{})
+		var x struct {
+			Values map[string]interface{} `json:"values"`
+		}
+		if !cv.exists || !ok || json.Unmarshal(p.data, &x) != nil {
+			return bad
+		}
+		n := map[string]interface{}{}
+		for k, v := range m {
+			n[k] = v
+		}
+		for k, v := range x.Values {
+			if a, isObj := v.(map[string]interface{}); isObj && a["action"] == "delete" {
+				delete(n, k)
+			} else {
+				n[k] = v
+			}
+		}
+		return cview{ok: true, exists: true, v: n}
+	case "add":
+		var x struct {
+			Value interface{} `json:"value"`
+			Idx   int         `json:"idx"`
+		}
+		l, ok := list()
+		if !ok || json.Unmarshal(p.data, &x) != nil || x.Idx < 0 || x.Idx > len(l) {
+			return bad
+		}
+		n := append(append(append([]interface{}{}, l[:x.Idx]...), x.Value), l[x.Idx:]...)
+		return cview{ok: true, exists: true, v: n}
+	case "remove":
+		var x struct {
+			Idx int `json:"idx"`
+		}
+		l, ok := list()
+		if !ok || !cv.exists || json.Unmarshal(p.data, &x) != nil || x.Idx < 0 || x.Idx >= len(l) {
+			return bad
+		}
+		n := append(append([]interface{}{}, l[:x.Idx]...), l[x.Idx+1:]...)
+		return cview{ok: true, exists: true, v: n}
+	case "create":
+		if e.Data == nil {
+			return bad
+		}
+		x, ok := marshalParse(e.Data.generic())
+		return cview{ok: ok, exists: true, v: x}
+	case "delete":
+		if def == nil {
+			return cview{ok: true}
+		}
+		x, ok := marshalParse(def.generic())
+		return cview{ok: ok, exists: true, v: x}
+	}
+	return bad
+}
+
 // ---------- generator ----------
 
 var keyPool = []string{"a", "b", "c"}
@@ -1065,6 +1201,9 @@ func genEvent(r *Rng, c CfgD, vi viewInfo) Ev {
 			}
 			return e
 		case k < 78:
+			if r.Chance(4) {
+				return Ev{Op: "create", Data: &Res{Null: true}}
+			}
 			return Ev{Op: "create", Data: genRes(r, c, r.Chance(5))}
 		case k < 94:
 			return Ev{Op: "delete"}
@@ -1096,6 +1235,9 @@ func genEvent(r *Rng, c CfgD, vi viewInfo) Ev {
 		}
 		return Ev{Op: "remove", Idx: idx(m)}
 	case k < 86:
+		if r.Chance(4) {
+			return Ev{Op: "create", Data: &Res{Null: true}}
+		}
 		return Ev{Op: "create", Data: genRes(r, c, !r.Chance(5))}
 	case k < 97:
 		return Ev{Op: "delete"}
@@ -1122,13 +1264,18 @@ func evFits(c CfgD, e Ev) bool {
 
 // ---------- running a batch ----------
 
-func runBatch(r *Rng, descs []Desc, base int) []*caseRun {
+// runBatch runs the cases on one database and one service: one after the other, or (conc)
+// every case on its own goroutine at the same time, each with its own generator rngs[i]
+func runBatch(r *Rng, descs []Desc, base int, conc bool, rngs []*Rng) []*caseRun {
 	dir, err := os.MkdirTemp("", "verif-c20-")
 	if err != nil {
 		panic(err)
 	}
 	defer os.RemoveAll(dir)
 	b := &batch{dir: dir}
+	if conc {
+		b.workers = 8
+	}
 	b.db = openDB(dir)
 	for i, d := range descs {
 		cr := &caseRun{d: d, rname: fmt.Sprintf("test.c%d", base+i), tags: map[string]bool{}, kinds: map[string]int{}}
@@ -1148,8 +1295,20 @@ func runBatch(r *Rng, descs []Desc, base int) []*caseRun {
 		}
 	}
 	b.start(true)
-	for _, cr := range b.cases {
-		b.runCase(r, cr)
+	if conc {
+		var wg sync.WaitGroup
+		for i, cr := range b.cases {
+			wg.Add(1)
+			go func(cr *caseRun, rg *Rng) {
+				defer wg.Done()
+				b.runCase(rg, cr)
+			}(cr, rngs[i])
+		}
+		wg.Wait()
+	} else {
+		for _, cr := range b.cases {
+			b.runCase(r, cr)
+		}
 	}
 	b.stop()
 	if err := b.db.Close(); err != nil {
@@ -1159,7 +1318,15 @@ func runBatch(r *Rng, descs []Desc, base int) []*caseRun {
 	b.db = openDB(dir)
 	b.start(false)
 	for _, cr := range b.cases {
-		cr.reget = b.getG(cr)
+		raw, err := b.conn.get(cr.rname)
+		if err != nil {
+			cr.broken = "get: " + err.Error()
+		}
+		cr.reget = gresOfResponse(raw)
+		if now := viewFromGet(raw); cr.diverged == "" && cr.fold.ok && cr.fold.String() != now.String() {
+			cr.diverged = fmt.Sprintf("%s after reopening: fold of its own published events = %s, get serves %s",
+				cr.rname, cr.fold.String(), now.String())
+		}
 		cr.restored, cr.reidx = b.stored(cr)
 	}
 	b.stop()
@@ -1175,8 +1342,9 @@ func (b *batch) runCase(r *Rng, cr *caseRun) {
 		cr.broken = "get: " + err.Error()
 	}
 	cr.get0 = gresOfResponse(raw)
+	cr.fold = viewFromGet(raw)
 	cr.val0 = b.valueG(cr)
-	b.conn.takeEvents()
+	b.conn.takeEvents(cr.rname)
 	vi := viewOf(cr.get0, raw)
 	prevStored, _ := b.stored(cr)
 	prevG := cr.get0
@@ -1214,7 +1382,7 @@ func (b *batch) runCase(r *Rng, cr *caseRun) {
 		}
 		cr.calls = nil
 		panicked := b.fire(cr, e)
-		pubs := b.conn.takeEvents()
+		pubs := b.conn.takeEvents(cr.rname)
 		var ps []string
 		for _, p := range pubs {
 			s, ok := pubCoq(cr, p)
@@ -1229,9 +1397,24 @@ func (b *batch) runCase(r *Rng, cr *caseRun) {
 			cr.broken = "get: " + err.Error()
 		}
 		g := gresOfResponse(raw)
+		if len(pubs) > 0 {
+			cr.fold = cr.fold.apply(e, pubs[0], c.Def)
+		}
+		if now := viewFromGet(raw); cr.diverged == "" && cr.fold.ok && cr.fold.String() != now.String() {
+			got := now.String()
+			if !now.ok {
+				got = "the response " + string(raw)
+				if len(got) > 300 {
+					got = got[:300]
+				}
+			}
+			cr.diverged = fmt.Sprintf("%s after event %d (%s): fold of its own published events = %s, get serves %s",
+				cr.rname, i, e.Op, cr.fold.String(), got)
+			cr.fold = now
+		}
 		v := b.valueG(cr)
 		st, ix := b.stored(cr)
-		if extra := b.conn.takeEvents(); len(extra) > 0 {
+		if extra := b.conn.takeEvents(cr.rname); len(extra) > 0 {
 			cr.broken = "get/Value published an event: " + extra[0].subj
 		}
 		cr.steps = append(cr.steps, fmt.Sprintf("SO %s %s %s %s %s %s %s %s",
@@ -1300,17 +1483,49 @@ func cfgCoq(c CfgD) string {
 	return fmt.Sprintf("(CC %s %s %s %s %s)", pk, t, ty, optRes(c.Def), idx)
 }
 
+// genConcGroup draws one group of the concurrent section: 6 resources of one package
+func genConcGroup(r *Rng, g int, tier string) []Desc {
+	var ds []Desc
+	for j := 0; j < 6; j++ {
+		c := genCfg(r, r.Intn(12))
+		c.Pkg = []string{"resb", "legacy"}[g%2]
+		c.Type = []string{"model", "collection"}[j%2]
+		if c.Ty == "num" && r.Chance(60) {
+			c.Ty = "any"
+		}
+		if c.Pkg != "resb" || c.Type != "model" {
+			c.Idx = nil
+		}
+		if c.Def != nil {
+			c.Def = genFitting(r, c)
+		}
+		d := Desc{Cfg: c, Len: 14 + r.Intn(12)}
+		if c.Idx == nil && r.Chance(40) {
+			d.Init = genFitting(r, c)
+		}
+		ds = append(ds, d)
+	}
+	return ds
+}
+
 func main() {
 	o := ParseOpts()
 	r := NewRng(o.Seed)
 	var descs []Desc
+	var replayGroup []Desc
 	if o.Replay != "" {
 		var d Desc
 		if err := LoadReplay(o.Replay, &d); err != nil {
 			panic(err)
 		}
 		d.Len = 0
-		descs = append(descs, d)
+		if len(d.Group) > 0 {
+			g := d.Group
+			d.Group = nil
+			replayGroup = append([]Desc{d}, g...)
+		} else {
+			descs = append(descs, d)
+		}
 	} else {
 		n := 1500
 		if o.Tier == "thorough" {
@@ -1324,6 +1539,9 @@ func main() {
 			d := Desc{Cfg: c}
 			if c.Idx == nil && r.Chance(30) {
 				d.Init = genFitting(r, c)
+				if r.Chance(8) {
+					d.Init = &Res{Null: true} // the entry is the JSON text null
+				}
 			}
 			switch {
 			case r.Chance(25):
@@ -1337,18 +1555,24 @@ func main() {
 	var cases []Case
 	var impl []ImplViolation
 	dist := map[string]int{}
-	const batchSize = 120
-	for off := 0; off < len(descs); off += batchSize {
-		end := off + batchSize
-		if end > len(descs) {
-			end = len(descs)
-		}
-		for _, cr := range runBatch(r, descs[off:end], off) {
+	emit := func(crs []*caseRun, conc bool) {
+		for i, cr := range crs {
 			c := cr.d.Cfg
 			term := fmt.Sprintf("LC %s %s %s %s %s %s %s %s", cfgCoq(c), optRes(cr.d.Init), cr.get0, cr.val0,
 				"[\n  "+strings.Join(cr.steps, ";\n  ")+"]", cr.reget, cr.restored, cr.reidx)
 			d := cr.d
 			d.Len = 0
+			if conc {
+				cr.tags["concurrent"] = true
+				for j, o := range crs {
+					if j != i {
+						od := o.d
+						od.Len = 0
+						od.Group = nil
+						d.Group = append(d.Group, od)
+					}
+				}
+			}
 			var tags []string
 			if c.Def != nil {
 				cr.tags["default"] = true
@@ -1364,7 +1588,17 @@ func main() {
 			if cr.broken != "" {
 				impl = append(impl, ImplViolation{What: cr.broken, Desc: d, Tags: tags})
 			}
-			dist["cfg:"+c.Pkg+"/"+c.Type+"/"+c.Ty]++
+			if conc && cr.diverged != "" {
+				impl = append(impl, ImplViolation{What: "concurrent events on different resources: " + cr.diverged, Desc: d, Tags: tags})
+			}
+			pre := "cfg:"
+			if conc {
+				pre = "concurrent:cfg:"
+				dist["concurrent:cases"]++
+				dist["concurrent:events"] += len(cr.steps)
+				dist["concurrent:published"] += cr.npub
+			}
+			dist[pre+c.Pkg+"/"+c.Type+"/"+c.Ty]++
 			if c.Def != nil {
 				dist["cfg:with-default"]++
 			}
@@ -1383,11 +1617,58 @@ func main() {
 			dist["events"] += len(cr.steps)
 		}
 	}
+	const batchSize = 120
+	for off := 0; off < len(descs); off += batchSize {
+		end := off + batchSize
+		if end > len(descs) {
+			end = len(descs)
+		}
+		emit(runBatch(r, descs[off:end], off, false, nil), false)
+	}
+	// concurrent section: groups of 6 different resources of one database and one service (8 workers)
+	// receive their event sequences at the same time, one goroutine per resource
+	switch {
+	case replayGroup != nil:
+		// re-run the recorded group until the interference shows again (it depends on scheduling)
+		var crs []*caseRun
+		for round := 0; round < 40; round++ {
+			g := make([]Desc, len(replayGroup))
+			copy(g, replayGroup)
+			rngs := make([]*Rng, len(g))
+			for i := range rngs {
+				rngs[i] = NewRng(o.Seed + uint64(i))
+			}
+			crs = runBatch(r, g, 0, true, rngs)
+			hit := false
+			for _, cr := range crs {
+				hit = hit || cr.diverged != ""
+			}
+			if hit {
+				break
+			}
+		}
+		emit(crs, true)
+	case o.Replay == "":
+		groups := 24
+		if o.Tier == "thorough" {
+			groups = 240
+		}
+		base := len(descs)
+		for g := 0; g < groups; g++ {
+			ds := genConcGroup(r, g, o.Tier)
+			rngs := make([]*Rng, len(ds))
+			for i := range rngs {
+				rngs[i] = NewRng(o.Seed*1000003 + uint64(g)*64 + uint64(i) + 17)
+			}
+			emit(runBatch(r, ds, base+g*6, true, rngs), true)
+		}
+	}
 	Emit(o, "C20", "From GoRes Require Import Run.Run_C20.", "lcase",
 		"random handler configurations (package x model/collection x untyped/typed-any/typed-number x default x index set x pre-seeded entry) "+
 			"with sequences of 1-20 change/add/remove/create/delete events drawn against the currently served value (in-range and out-of-range "+
-			"indexes, negative indexes, deletes of absent properties, unchanged values, int vs float64 values, create on existing, events of the "+
-			"wrong resource type, a few values that do not fit the handler's Type); non-trivial = at least two published events and one failed event; "+
-			"distinct by full observation trace",
+			"indexes, negative indexes, deletes of absent properties, unchanged values, int vs float64 values, null / bool / array values, create on existing, "+
+			"events of the wrong resource type, a few values that do not fit the handler's Type); plus a concurrent section: groups of 6 different "+
+			"resources of one database and one service (8 workers) receiving sequences of 14-25 events at the same time from one goroutine each, "+
+			"one ordinary case per resource; non-trivial = at least two published events and one failed event; distinct by full observation trace",
 		cases, dist, nil, impl, 100)
 }
